@@ -45,6 +45,9 @@ pub(crate) struct Loop {
     pub start_ip: usize,
     // Placeholders for jumps to the end of the loop, updated when the loop compilation is complete
     pub jump_placeholders: Vec<usize>,
+    // The number of try blocks that were active in the frame when the loop was entered,
+    // used to leave any try blocks inside the loop when a break or continue jumps out of them
+    pub try_depth: usize,
 }
 
 #[derive(Clone, Debug, PartialEq)]
@@ -69,6 +72,8 @@ pub(crate) enum Arg {
 #[derive(Clone, Debug, Default)]
 pub(crate) struct Frame {
     loop_stack: Vec<Loop>,
+    // The number of try blocks that are currently active (between TryStart and TryEnd)
+    pub try_depth: usize,
     register_stack: Vec<u8>,
     local_registers: Vec<LocalRegister>,
     exported_ids: HashSet<ConstantIndex>,
@@ -337,6 +342,7 @@ impl Frame {
             start_ip: loop_start_ip,
             result_register,
             jump_placeholders: Vec::new(),
+            try_depth: self.try_depth,
         });
     }
 
